@@ -74,7 +74,7 @@ Lemma spec_record_nf bs hdr limit off :
   if negb (off mod 32 =? 0) then None else
   if off <? first_off hdr then None else
   if (get32 bs (off + 8) mod 16777216 =? 0) || (4096 <? get32 bs (off + 8) mod 16777216) then None else
-  if limit <? off + rec_size (get32 bs (off + 8) mod 16777216) then None else
+  if limit <? off + 16 + get32 bs (off + 8) mod 16777216 then None else
   if 16352 <? off mod 16384 + rec_size (get32 bs (off + 8) mod 16777216) then None else
   Some (slice bs (off + 16) (get32 bs (off + 8) mod 16777216), get32 bs (off + 12), get64 bs off).
 Proof.
@@ -86,7 +86,7 @@ Lemma spec_record_inv bs hdr limit off name next v :
   spec_record bs hdr limit off = Some (name, next, v) ->
   let nl := get32 bs (off + 8) mod 16777216 in
   off mod 32 = 0 /\ first_off hdr <= off /\ 1 <= nl <= 4096 /\
-  off + rec_size nl <= limit /\ off mod 16384 + rec_size nl <= 16352 /\
+  off + 16 + nl <= limit /\ off mod 16384 + rec_size nl <= 16352 /\
   name = slice bs (off + 16) nl /\ next = get32 bs (off + 12) /\ v = get64 bs off.
 Proof.
   rewrite spec_record_nf. cbv zeta.
@@ -95,7 +95,7 @@ Proof.
   destruct (N.ltb_spec off (first_off hdr)) as [H2|H2]; [discriminate|].
   destruct (N.eqb_spec nl 0) as [H3|H3]; cbn [orb]; [discriminate|].
   destruct (N.ltb_spec 4096 nl) as [H4|H4]; [discriminate|].
-  destruct (N.ltb_spec limit (off + rec_size nl)) as [H5|H5]; [discriminate|].
+  destruct (N.ltb_spec limit (off + 16 + nl)) as [H5|H5]; [discriminate|].
   destruct (N.ltb_spec 16352 (off mod 16384 + rec_size nl)) as [H6|H6]; [discriminate|].
   intro E. injection E as <- <- <-. repeat split; try assumption; try reflexivity; lia.
 Qed.
@@ -103,7 +103,7 @@ Qed.
 Lemma spec_record_intro bs hdr limit off :
   let nl := get32 bs (off + 8) mod 16777216 in
   off mod 32 = 0 -> first_off hdr <= off -> 1 <= nl <= 4096 ->
-  off + rec_size nl <= limit -> off mod 16384 + rec_size nl <= 16352 ->
+  off + 16 + nl <= limit -> off mod 16384 + rec_size nl <= 16352 ->
   spec_record bs hdr limit off = Some (slice bs (off + 16) nl, get32 bs (off + 12), get64 bs off).
 Proof.
   cbv zeta. set (nl := get32 bs (off + 8) mod 16777216).
@@ -112,7 +112,7 @@ Proof.
   destruct (N.ltb_spec off (first_off hdr)) as [X|_]; [lia|].
   destruct (N.eqb_spec nl 0) as [X|_]; [lia|]. cbn [orb].
   destruct (N.ltb_spec 4096 nl) as [X|_]; [lia|].
-  destruct (N.ltb_spec limit (off + rec_size nl)) as [X|_]; [lia|].
+  destruct (N.ltb_spec limit (off + 16 + nl)) as [X|_]; [lia|].
   destruct (N.ltb_spec 16352 (off mod 16384 + rec_size nl)) as [X|_]; [lia|].
   reflexivity.
 Qed.
@@ -129,7 +129,7 @@ Proof.
   destruct H as (H1 & H2 & H3 & H4 & H5 & -> & -> & ->).
   set (nl := get32 bs (off + 8) mod 16777216) in *.
   assert (Hsz : 16 + nl <= rec_size nl) by (apply rec_size_bounds; exact H3).
-  assert (A : agree bs bs' off (off + rec_size nl)) by (eapply agree_sub; [exact Ha|lia|lia]).
+  assert (A : agree bs bs' off (off + 16 + nl)) by (eapply agree_sub; [exact Ha|lia|lia]).
   assert (E8 : get32 bs' (off + 8) = get32 bs (off + 8)).
   { symmetry. apply get32_agree. eapply agree_sub; [exact A|lia|lia]. }
   pose proof (spec_record_intro bs' hdr limit' off) as I. cbv zeta in I. rewrite E8 in I.
@@ -248,7 +248,7 @@ Qed.
 (* what membership in a chain says about a record *)
 Lemma rec_in_facts bs hdr limit r : rec_in bs hdr limit r -> limit <= len bs ->
   r_off r mod 32 = 0 /\ first_off hdr <= r_off r /\ 1 <= len (r_name r) <= 4096 /\
-  r_end r <= limit /\ r_off r mod 16384 + rec_size (len (r_name r)) <= 16352 /\
+  r_off r + 16 + len (r_name r) <= limit /\ r_off r mod 16384 + rec_size (len (r_name r)) <= 16352 /\
   get32 bs (r_off r + 8) mod 16777216 = len (r_name r) /\
   r_name r = slice bs (r_off r + 16) (len (r_name r)) /\ r_val r = get64 bs (r_off r).
 Proof.
@@ -401,7 +401,7 @@ Definition bucket_ok (bs : bytes) (hdr limit : N) (i : N) (c : list rec) : Prop 
 Lemma spec_read_inv bs hdr meta kv limit tbl :
   spec_read bs = Some (hdr, meta, kv, limit, tbl) ->
   spec_header bs = Some (hdr, meta) /\ meta_kv meta = Some kv /\ limit = get32 bs hdr /\
-  len bs mod 16384 = 0 /\ 16384 <= len bs /\ limit <= len bs /\ limit mod 32 = 0 /\
+  len bs mod 16384 = 0 /\ 16384 <= len bs /\ limit <= len bs /\ 0 <= limit /\
   (limit = 0 \/ first_off hdr <= limit) /\
   Forall2 (bucket_ok bs hdr limit) buckets tbl /\ pairwise rec_compat (concat tbl) = true.
 Proof.
@@ -413,7 +413,7 @@ Proof.
   destruct (N.eqb_spec (len bs mod 16384) 0) as [H1|]; cbn [andb negb]; [|discriminate].
   destruct (N.leb_spec 16384 (len bs)) as [H2|]; cbn [andb negb]; [|discriminate].
   destruct (N.leb_spec (get32 bs hl) (len bs)) as [H3|]; cbn [andb negb]; [|discriminate].
-  destruct (N.eqb_spec (get32 bs hl mod 32) 0) as [H4|]; cbn [andb negb]; [|discriminate].
+  assert (H4 : 0 <= get32 bs hl) by apply N.le_0_l.
   assert (H5 : (get32 bs hl =? 0) || (first_off hl <=? get32 bs hl) = true ->
                get32 bs hl = 0 \/ first_off hl <= get32 bs hl).
   { intro X. apply orb_true_iff in X as [X|X]; [left; now apply N.eqb_eq|right; now apply N.leb_le]. }
@@ -430,7 +430,7 @@ Qed.
 
 Lemma spec_read_intro bs hdr meta kv limit tbl :
   spec_header bs = Some (hdr, meta) -> meta_kv meta = Some kv -> limit = get32 bs hdr ->
-  len bs mod 16384 = 0 -> 16384 <= len bs -> limit <= len bs -> limit mod 32 = 0 ->
+  len bs mod 16384 = 0 -> 16384 <= len bs -> limit <= len bs -> 0 <= limit ->
   (limit = 0 \/ first_off hdr <= limit) ->
   Forall2 (bucket_ok bs hdr limit) buckets tbl -> pairwise rec_compat (concat tbl) = true ->
   spec_read bs = Some (hdr, meta, kv, limit, tbl).
@@ -438,7 +438,7 @@ Proof.
   intros Eh Ek -> H1 H2 H3 H4 H5 Ht Hp. unfold spec_read. rewrite Eh, Ek.
   change c_limitOff with 0. rewrite N.add_0_r.
   change c_pageSize with 16384. change c_minFileLen with 16384. change c_recordUnit with 32.
-  rewrite H1, H4. change (0 =? 0) with true.
+  rewrite H1. change (0 =? 0) with true.
   destruct (N.leb_spec 16384 (len bs)) as [_|]; [|lia].
   destruct (N.leb_spec (get32 bs hdr) (len bs)) as [_|]; [|lia]. cbn [andb negb].
   replace ((get32 bs hdr =? 0) || (first_off hdr <=? get32 bs hdr)) with true.
